@@ -4,16 +4,16 @@
 # 2. apply to /repo, run every quick check, revert
 # 3. keep as /verif/seeded/<id>-<name>/ {patch.diff, demo.rs, notes.md, meta.json}
 src="$1"; pid="$2"; name="$3"
-v=$(/verif/tools/verify_seed.sh "$src" 2>&1 | tail -1 | sed -E 's/test result: //g; s/[0-9]+ ignored; [0-9]+ measured; [0-9]+ filtered out; finished in [0-9.]+s//g')
+v=$("${VERIF_ROOT:-/verif}"/tools/verify_seed.sh "$src" 2>&1 | tail -1 | sed -E 's/test result: //g; s/[0-9]+ ignored; [0-9]+ measured; [0-9]+ filtered out; finished in [0-9.]+s//g')
 echo "$v" | cut -c1-300
 ok=no
 if echo "$v" | grep -q "suite_ok=yes" && echo "$v" | grep -q "demo with patch: FAILED" && echo "$v" | grep -q "demo without: ok"; then ok=yes; fi
 if [ $ok != yes ]; then echo "NOT CONFIRMED: $src"; exit 1; fi
-r=$(/verif/tools/run_seeded.sh "$src/patch.diff" 2>&1)
+r=$("${VERIF_ROOT:-/verif}"/tools/run_seeded.sh "$src/patch.diff" 2>&1)
 echo "$r" | grep -E "CAUGHT|exit=" | cut -c1-260
 caught=$(echo "$r" | grep "^CAUGHT_BY:" | sed 's/CAUGHT_BY://')
 sigs=$(echo "$r" | grep -oE "signature=[^ ]+" | sed 's/signature=//' | tr '\n' ' ')
-dst=/verif/seeded/$pid-$name
+dst=${SEED_DST:-/verif/seeded}/$pid-$name
 mkdir -p "$dst"
 cp "$src/patch.diff" "$src/demo.rs" "$dst/"; [ -f "$src/notes.md" ] && cp "$src/notes.md" "$dst/"
 python3 - "$dst" "$pid" "$name" "$v" "$caught" "$sigs" <<'PY'
